@@ -1,79 +1,187 @@
-(* Proofs/DatesOrder.v — ordering/equality of dateTime values against the timeline:
-   refutations (the comparison is computed from an approximate float "duration"). *)
-From Coq Require Import NArith ZArith List Bool Lia PrimFloat.
-From XV Require Import Base.Str Model.Dates Model.DatesCorr Spec.XsdDates.
+(* Proofs/DatesOrder.v — ordering/equality of xs:dateTime and xs:time values agree with the timeline.
+
+   History: on the pinned tree `_cmp` compared the float `duration` properties (every month 2 629 743 s,
+   every year 31 556 926 s, the whole sum negated for negative years, nanoseconds lost in a binary64):
+   the statements below were REFUTED of the faithful model (findings C06-F2, C06-F3).  After the repair
+   (`fix: compare XmlTime and XmlDateTime on the exact timeline`) `_cmp` compares `_timeline`, an exact
+   integer; the same statements are now theorems.  The old witnesses are kept as regression lemmas. *)
+From Coq Require Import NArith ZArith List Bool Lia ZifyBool PrimFloat.
+From XV Require Import Base.Str Gen.DatesTables Model.Dates Model.DatesCorr Spec.XsdDates Proofs.DatesCal.
 Import ListNotations.
 Open Scope Z_scope.
+Ltac Zify.zify_post_hook ::= Z.to_euclidean_division_equations.
 
 Definition dt (y m d h mi s f : Z) (o : option Z) := mk_xdatetime y m d h mi s f o.
+Definition tm (h mi s f : Z) (o : option Z) := mk_xtime h mi s f o.
+Definition t_instant (x : xtime) : Z := time_ns (t_hour x) (t_minute x) (t_second x) (t_frac x) (t_offset x).
 
-(* months are taken as 2 629 743 s: a later instant compares as earlier *)
-Lemma datetime_order_refuted_month_length :
-  exists a b, valid_datetime_value a = true /\ valid_datetime_value b = true /\
-              datetime_lt a b = true /\ dt_instant b < dt_instant a.
+(* ---- the day number ------------------------------------------------------------------------ *)
+(* `date_ordinal` (days before the year + days before the month + day, CPython's _ymd2ord extended to
+   every year) against the specification's era arithmetic: they differ by a constant, for EVERY year. *)
+Ltac close_consts :=
+  repeat match goal with
+  | |- context [sum_z ?l] => let v := eval vm_compute in (sum_z l) in change (sum_z l) with v
+  | |- context [Z.ltb (Zpos ?a) (Zpos ?b)] =>
+      let v := eval vm_compute in (Z.ltb (Zpos a) (Zpos b)) in change (Z.ltb (Zpos a) (Zpos b)) with v
+  | |- context [Z.leb (Zpos ?a) (Zpos ?b)] =>
+      let v := eval vm_compute in (Z.leb (Zpos a) (Zpos b)) in change (Z.leb (Zpos a) (Zpos b)) with v
+  end; cbv beta iota zeta.
+
+Ltac leap_cases y :=
+  destruct (y mod 4 =? 0) eqn:?E4; destruct (y mod 100 =? 0) eqn:?E100;
+  destruct (y mod 400 =? 0) eqn:?E400; cbn [andb orb negb]; cbv beta iota zeta.
+
+Lemma date_ordinal_spec y m d :
+  1 <= m <= 12 -> date_ordinal y m d = days_from_civil y m d - 305.
 Proof.
-  exists (dt 2001 2 28 23 0 0 0 (Some 0)), (dt 2001 3 1 0 30 0 0 (Some 120)).
-  vm_compute. repeat split; reflexivity.
+  intros Hm.
+  assert (C : m = 1 \/ m = 2 \/ m = 3 \/ m = 4 \/ m = 5 \/ m = 6 \/ m = 7 \/ m = 8 \/ m = 9
+              \/ m = 10 \/ m = 11 \/ m = 12) by lia.
+  unfold date_ordinal, days_from_civil. rewrite isleap_spec. unfold spec_leap.
+  destruct (m <? 0) eqn:Eneg; [lia|]. cbv beta iota zeta.
+  repeat (destruct C as [C|C]); subst m; close_consts; leap_cases y; lia.
 Qed.
 
-(* nanoseconds vanish in a binary64 holding ~6e10 seconds *)
-Lemma datetime_eq_refuted_nanoseconds :
-  exists a b, valid_datetime_value a = true /\ valid_datetime_value b = true /\
-              datetime_eq a b = true /\ dt_instant a <> dt_instant b.
+(* ---- the constants of the regenerated table are the exact integers the timeline needs --------- *)
+Lemma K_DAY_int : K_DAY = PI 86400.      Proof. reflexivity. Qed.
+Lemma K_HOUR_int : K_HOUR = PI 3600.     Proof. reflexivity. Qed.
+Lemma K_MINUTE_int : K_MINUTE = PI 60.   Proof. reflexivity. Qed.
+Lemma K_OFFSET_int : K_OFFSET = PI (-60). Proof. reflexivity. Qed.
+
+Lemma off_or_0_off0 o : off_or_0 o = off0 o.
+Proof. destruct o; reflexivity. Qed.
+
+Lemma timeline_of_int days h mi s f o :
+  timeline_of days h mi s f o = PI (((days * 86400 + h * 3600 + mi * 60 + s) - off0 o * 60) * 1000000000 + f).
 Proof.
-  exists (dt 2001 1 1 0 0 0 1 None), (dt 2001 1 1 0 0 0 2 None).
-  vm_compute. repeat split; try reflexivity. discriminate.
+  unfold timeline_of. rewrite K_DAY_int, K_HOUR_int, K_MINUTE_int, K_OFFSET_int, off_or_0_off0.
+  cbn [pn_mul pn_add]. f_equal. lia.
 Qed.
 
-(* for negative years the whole sum is negated, reversing month/day/time order *)
-Lemma datetime_order_refuted_negative_year :
-  exists a b, valid_datetime_value a = true /\ valid_datetime_value b = true /\
-              datetime_lt a b = true /\ dt_instant b < dt_instant a.
+Lemma time_timeline_spec x : time_timeline x = PI (t_instant x).
+Proof. unfold time_timeline, t_instant, time_ns. rewrite timeline_of_int. f_equal; lia. Qed.
+
+Lemma datetime_timeline_spec x :
+  1 <= dt_month x <= 12 -> datetime_timeline x = PI (dt_instant x - 305 * 86400 * 1000000000).
 Proof.
-  exists (dt (-2751) 7 28 11 47 20 0 None), (dt (-2751) 7 27 11 47 20 0 None).
-  vm_compute. repeat split; reflexivity.
+  intros Hm. unfold datetime_timeline, dt_instant, instant_ns.
+  rewrite timeline_of_int, date_ordinal_spec by exact Hm. f_equal; lia.
 Qed.
 
-(* 24:00:00 is the first instant of the next day *)
-Lemma datetime_eq_refuted_end_of_day :
-  exists a b, valid_datetime_value a = true /\ valid_datetime_value b = true /\
-              dt_instant a = dt_instant b /\ datetime_eq a b = false.
+Lemma valid_datetime_month x : valid_datetime_value x = true -> 1 <= dt_month x <= 12.
 Proof.
-  exists (dt 2001 1 31 24 0 0 0 None), (dt 2001 2 1 0 0 0 0 None).
-  vm_compute. repeat split; reflexivity.
+  unfold valid_datetime_value, real_date. intros H.
+  repeat (apply andb_prop in H; destruct H as [H ?]). lia.
 Qed.
 
-(* the full statement, kept visible: it is false of the faithful model *)
+(* ---- the statements -------------------------------------------------------------------------- *)
 Definition datetime_order_agrees_statement : Prop :=
   forall a b, valid_datetime_value a = true -> valid_datetime_value b = true ->
     datetime_lt a b = (dt_instant a <? dt_instant b) /\ datetime_eq a b = (dt_instant a =? dt_instant b).
 
-Theorem datetime_order_agrees_refuted : ~ datetime_order_agrees_statement.
+Theorem datetime_order_agrees : datetime_order_agrees_statement.
 Proof.
-  intros H. destruct datetime_order_refuted_month_length as [a [b [Va [Vb [L I]]]]].
-  destruct (H a b Va Vb) as [E _]. rewrite L in E. symmetry in E. apply Z.ltb_lt in E. lia.
-Qed.
-
-(* ---- xs:time: the same instant written with two offsets ---------------------- *)
-Definition tm (h mi s f : Z) (o : option Z) := mk_xtime h mi s f o.
-Definition t_instant (x : xtime) : Z := time_ns (t_hour x) (t_minute x) (t_second x) (t_frac x) (t_offset x).
-
-(* hours/minutes/seconds, the fraction and the offset are added in floating point one after the
-   other: two spellings of one instant round differently *)
-Lemma time_eq_refuted_offsets :
-  exists a b, valid_time_value a = true /\ valid_time_value b = true /\
-              t_instant a = t_instant b /\ time_eq a b = false.
-Proof.
-  exists (tm 9 7 31 817077202 (Some 45)), (tm 8 22 31 817077202 (Some 0)).
-  vm_compute. repeat split; reflexivity.
+  intros a b Va Vb. unfold datetime_lt, datetime_eq.
+  rewrite !datetime_timeline_spec by (apply valid_datetime_month; assumption).
+  cbn [pn_ltb pn_eqb]. split.
+  - destruct (dt_instant a <? dt_instant b) eqn:E; lia.
+  - destruct (dt_instant a =? dt_instant b) eqn:E; lia.
 Qed.
 
 Definition time_order_agrees_statement : Prop :=
   forall a b, valid_time_value a = true -> valid_time_value b = true ->
     time_lt a b = (t_instant a <? t_instant b) /\ time_eq a b = (t_instant a =? t_instant b).
 
-Theorem time_order_agrees_refuted : ~ time_order_agrees_statement.
+Theorem time_order_agrees : time_order_agrees_statement.
 Proof.
-  intros H. destruct time_eq_refuted_offsets as [a [b [Va [Vb [I E]]]]].
-  destruct (H a b Va Vb) as [_ Q]. rewrite E, I, Z.eqb_refl in Q. discriminate.
+  intros a b _ _. unfold time_lt, time_eq. rewrite !time_timeline_spec. cbn [pn_ltb pn_eqb]. split; reflexivity.
+Qed.
+
+(* the six rich comparisons are derived from lt and eq exactly as the oracle derives them *)
+Corollary datetime_cmp6_agrees a b :
+  valid_datetime_value a = true -> valid_datetime_value b = true ->
+  cmp6 (datetime_lt a b) (datetime_eq a b) = cmp6Z (dt_instant a) (dt_instant b).
+Proof. intros Va Vb. destruct (datetime_order_agrees a b Va Vb) as [-> ->]. reflexivity. Qed.
+
+Corollary time_cmp6_agrees a b :
+  valid_time_value a = true -> valid_time_value b = true ->
+  cmp6 (time_lt a b) (time_eq a b) = cmp6Z (t_instant a) (t_instant b).
+Proof. intros Va Vb. destruct (time_order_agrees a b Va Vb) as [-> ->]. reflexivity. Qed.
+
+(* ---- the former witnesses, now regression lemmas ---------------------------------------------- *)
+(* month length: 2001-02-28T23:00:00Z is later than 2001-03-01T00:30:00+02:00 *)
+Example datetime_order_month_length :
+  let a := dt 2001 2 28 23 0 0 0 (Some 0) in let b := dt 2001 3 1 0 30 0 0 (Some 120) in
+  valid_datetime_value a = true /\ valid_datetime_value b = true /\ datetime_lt b a = true /\ datetime_lt a b = false.
+Proof. vm_compute. repeat split; reflexivity. Qed.
+(* nanoseconds *)
+Example datetime_eq_nanoseconds :
+  datetime_eq (dt 2001 1 1 0 0 0 1 None) (dt 2001 1 1 0 0 0 2 None) = false.
+Proof. vm_compute. reflexivity. Qed.
+(* negative years *)
+Example datetime_order_negative_year :
+  datetime_lt (dt (-2751) 7 27 11 47 20 0 None) (dt (-2751) 7 28 11 47 20 0 None) = true.
+Proof. vm_compute. reflexivity. Qed.
+(* 24:00:00 is the first instant of the next day *)
+Example datetime_eq_end_of_day :
+  datetime_eq (dt 2001 1 31 24 0 0 0 None) (dt 2001 2 1 0 0 0 0 None) = true.
+Proof. vm_compute. reflexivity. Qed.
+(* one instant written with two offsets *)
+Example time_eq_offsets :
+  time_eq (tm 9 7 31 817077202 (Some 45)) (tm 8 22 31 817077202 (Some 0)) = true.
+Proof. vm_compute. reflexivity. Qed.
+
+(* ---- sanity of the specification's timeline: consecutive calendar days are consecutive numbers -- *)
+Definition next_day (y m d : Z) : Z * Z * Z :=
+  if d <? spec_month_days y m then (y, m, d + 1)
+  else if m <? 12 then (y, m + 1, 1) else (y + 1, 1, 1).
+
+Ltac close_add :=
+  repeat match goal with
+  | |- context [Zpos ?a + Zpos ?b] =>
+      let v := eval vm_compute in (Zpos a + Zpos b) in change (Zpos a + Zpos b) with v
+  end.
+
+Lemma dfc_day_step y m d : days_from_civil y m (d + 1) = days_from_civil y m d + 1.
+Proof. unfold days_from_civil. lia. Qed.
+
+Lemma dfc_month_step y m :
+  1 <= m < 12 -> days_from_civil y (m + 1) 1 = days_from_civil y m (spec_month_days y m) + 1.
+Proof.
+  intros Hm.
+  assert (C : m = 1 \/ m = 2 \/ m = 3 \/ m = 4 \/ m = 5 \/ m = 6 \/ m = 7 \/ m = 8 \/ m = 9
+              \/ m = 10 \/ m = 11) by lia.
+  repeat (destruct C as [C|C]); subst m; close_add; cbn [spec_month_days]; unfold days_from_civil;
+    close_consts; try (unfold spec_leap; leap_cases y); lia.
+Qed.
+
+Lemma dfc_year_step y : days_from_civil (y + 1) 1 1 = days_from_civil y 12 31 + 1.
+Proof. unfold days_from_civil. close_consts. lia. Qed.
+
+Lemma spec_month_days_pos y m : 1 <= m <= 12 -> 28 <= spec_month_days y m <= 31.
+Proof.
+  intros Hm.
+  assert (C : m = 1 \/ m = 2 \/ m = 3 \/ m = 4 \/ m = 5 \/ m = 6 \/ m = 7 \/ m = 8 \/ m = 9
+              \/ m = 10 \/ m = 11 \/ m = 12) by lia.
+  repeat (destruct C as [C|C]); subst m; cbn [spec_month_days]; try destruct (spec_leap y); lia.
+Qed.
+
+Lemma days_from_civil_next y m d :
+  real_date y m d = true ->
+  let '(y', m', d') := next_day y m d in
+  real_date y' m' d' = true /\ days_from_civil y' m' d' = days_from_civil y m d + 1.
+Proof.
+  unfold real_date. intros H.
+  repeat (apply andb_prop in H; destruct H as [H ?]).
+  assert (Hm : 1 <= m <= 12) by lia.
+  unfold next_day.
+  destruct (d <? spec_month_days y m) eqn:Ed.
+  - split; [| apply dfc_day_step]. unfold real_date. lia.
+  - assert (Hd : d = spec_month_days y m) by lia. destruct (m <? 12) eqn:Em.
+    + split.
+      * unfold real_date. pose proof (spec_month_days_pos y (m + 1) ltac:(lia)). lia.
+      * rewrite Hd. apply dfc_month_step. lia.
+    + assert (m = 12) by lia. subst m. cbn [spec_month_days] in Hd. subst d. split.
+      * reflexivity.
+      * apply dfc_year_step.
 Qed.
